@@ -56,8 +56,8 @@ pub fn run_c16(cx: &Ctx) -> i32 {
                 let mut exp_names: Vec<Option<String>> = vec![None; ng + 1];
                 for g in 1..=ng {
                     let named = match naming {
-                        Naming::Numbered => false,
-                        Naming::Angle | Naming::Python => true,
+                        Naming::Numbered | Naming::Relative | Naming::NumericName => false,
+                        Naming::Angle | Naming::Python | Naming::Quote => true,
                         Naming::Mask(m) => m & (1 << (g - 1)) != 0,
                     };
                     if named {
